@@ -7,6 +7,39 @@ THEOREMS = ["Props.C01." + t for t in ["ns_add_fresh", "ns_inj", "ns_names_disti
             "struct_members_complete_partial"]]
 
 
+def first_diff(a, b):
+    """first item in which two `kind x,y;z` answer lines differ (for the report only)"""
+    xs = a.replace(";", ",").split(",")
+    ys = b.replace(";", ",").split(",")
+    only_a = [x for x in xs if x not in ys][:3]
+    only_b = [y for y in ys if y not in xs][:3]
+    return "generated code only: %s | model only: %s" % (only_a, only_b)
+
+
+def tie_violations(ctx, mism, ops_path):
+    """A disagreement between Names (model) and the declarations of the generated file is reported with the unit's
+    IDL and command line as the concrete input; one violation per query kind."""
+    if not mism:
+        return
+    up = os.path.join(ctx.work, "units.json")
+    units = json.load(open(up)) if os.path.exists(up) else {}
+    seen = set()
+    for m in mism:
+        toks = m["op"].split(" ")
+        if len(toks) < 2 or toks[0] in seen:
+            continue
+        seen.add(toks[0])
+        u = units.get(toks[1])
+        if not u:
+            continue
+        what = {"QO": "outcome (accepted / refused by MustReserve)", "QG": "package-level identifiers", "QT": "struct members",
+                "QP": "method parameter names", "QI": "import table"}.get(toks[0], toks[0])
+        ctx.add_violation("tie:" + toks[0], "the %s of the generated file differ from the model Lib/Names.lean" % what,
+                          dict(idl=u["idl"], files=u["files"], main=u["main"], cmd=u["cmd"], backend=u["backend"], options=u["options"],
+                               recurse=u["recurse"], query=m["op"], head="tie:" + toks[0]),
+                          "model: " + m["model"][:1500], "generated code: " + m["impl"][:1500] + " || " + first_diff(m["impl"], m["model"]))
+
+
 def run(ctx):
     exe = ctx.go_build("c01")
     ctx.trusted += ["translator harness/cmd/c01 extract (isKeywords of types.go, go/token keywords, std table of imports.go) -> Generated/C01.lean",
@@ -29,7 +62,9 @@ def run(ctx):
                     "`<fn>_args` (buildStructLike binds the synthesized struct under v.Name); such files are covered by the correspondence only"]
     if exe and ctx.replay:
         doc = json.load(open(ctx.replay))
-        if doc.get("kind") == "failing-input" and isinstance(doc.get("input"), dict) and doc["input"].get("files"):
+        # a `tie:` replay (model vs generated declarations) needs the model: it is re-examined by a full run
+        if doc.get("kind") == "failing-input" and isinstance(doc.get("input"), dict) and doc["input"].get("files") \
+                and not str(doc["input"].get("head", "")).startswith("tie:"):
             rc, out = core.sh([exe, "replay", "-repo", core.REPO, "-dir", ctx.work, "-file", ctx.replay], timeout=1800)
             rp = os.path.join(ctx.work, "replay-result.json")
             if rc not in (0, 1) or not os.path.exists(rp):
@@ -65,10 +100,12 @@ def run(ctx):
                        units_failing=dist.get("unit.failing", 0))
         for f in (st.get("oracle_failures") or []):
             ctx.add_violation(f["key"], f["what"], f["input"], f["expected"], f["observed"])
+        ctx.cov["violation_keys"] = [f["key"] for f in (st.get("oracle_failures") or [])]
         if drv:
             ops = os.path.join(ctx.work, "ops.txt")
             model = ctx.run_model("tv_c01", ops)
-            ctx.diff_lines("c01:Names-vs-generated-declarations", ops, os.path.join(ctx.work, "impl.txt"), model)
+            mism = ctx.diff_lines("c01:Names-vs-generated-declarations", ops, os.path.join(ctx.work, "impl.txt"), model)
+            tie_violations(ctx, mism, ops)
     return ctx.finish(rule="(IDL program, backend, option set) units: seeded idlgen programs with the stress name pool x every documented option alone "
                            "(rotating) and random combinations, -r on/off, fastgo; dedicated known-defect units; switch stream. A correspondence line "
                            "is non-trivial when it is a query (outcome / globals / members / params / imports of one generated file); distinct by "
